@@ -1944,12 +1944,22 @@ func TestVerifC03(t *testing.T) {
 		"constructions through SuffrageVoting.Find are validated too (t=67). non-trivial = distinct ACCEPTED " +
 		"descriptor (voter->facts map, majority, number of expelled nodes, class flags); all pairs of accepted " +
 		"descriptors that carry a majority are compared: different majority facts and <= f nodes having signed two " +
-		"different facts = violation")
+		"different facts = violation." + c03fRule)
 	r.Assume("accepted == IsValidVoteproofWithSuffrage(vp, suf)==nil && vp.IsValid(networkID)==nil, evaluated in that order (both are pure)")
 	r.Assume("both voteproofs of a pair carry the network's threshold t in their threshold field; the field itself is attacker-chosen and is compared with the local parameter elsewhere")
 	r.Assume("stuck voteproofs and suffrage-confirm facts are not enumerated: they carry no majority fact / share the INIT fact hash")
 
 	if _, replaying := r.Replaying(); replaying {
+		var probe struct {
+			Kind string `json:"kind"`
+		}
+
+		if err := r.ReplayData(&probe); err == nil && probe.Kind == "foreign" {
+			c03fReplayCase(r)
+
+			return
+		}
+
 		c03ReplayCase(r)
 
 		return
@@ -2004,4 +2014,33 @@ func TestVerifC03(t *testing.T) {
 		c03RunConfig(r, cfg, workers, &stop)
 	}
 
+	// second exploration: voteproofs carrying facts of another stage point (c03_foreign_test.go)
+	fcfgs := c03fConfigs(r)
+	fnames := make([]string, len(fcfgs))
+
+	for i := range fcfgs {
+		fnames[i] = fcfgs[i].String()
+	}
+
+	r.Set("foreign_configs", fnames)
+
+	for i, cfg := range fcfgs {
+		if !r.Mine(len(cfgs) + i) {
+			continue
+		}
+
+		if only != "" && !strings.Contains(cfg.String(), only) {
+			r.Cap("VERIF_C03_ONLY set")
+
+			continue
+		}
+
+		if r.Expired() {
+			r.Cap("config " + cfg.String() + " not started")
+
+			continue
+		}
+
+		c03fRunConfig(r, cfg, workers)
+	}
 }
